@@ -765,17 +765,26 @@ func gen(g *hx.Gen) {
 		}
 		for shape := 0; shape < nShapes; shape++ {
 			for rep := 0; rep < reps; rep++ {
-				offs := []int{1, []int{-1, 0, 2, 3 + r.Intn(b/2)}[r.Intn(4)]}
-				if g.Thorough() {
-					offs = []int{1, -1, 0, 2, 3 + r.Intn(b/2)}
+				// n = B+1 joined into one set.  A chain order is a deep path only under one particular
+				// altered linking rule of the variant (buffered or not) that makes the calls, so the
+				// chains are run once with each variant alone; the other shapes cycle through the modes.
+				modes := []int{kindMode % 3}
+				kindMode++
+				if (shape == shChainAsc || shape == shChainDesc) && rep == 0 {
+					modes = []int{0, 1}
 				}
-				for i, off := range offs {
+				for _, m := range modes {
+					h, ops := genBig(r, b+1, 1, shape, m, false)
+					g.Emit(caseLine(h, ops))
+				}
+				// below, at, further above B, split into a few sets
+				offs := []int{[]int{-1, 0, 2, 3 + r.Intn(b/2)}[r.Intn(4)]}
+				if g.Thorough() {
+					offs = []int{-1, 0, 2, 3 + r.Intn(b/2)}
+				}
+				for _, off := range offs {
 					n := b + off
-					k := 1
-					if i > 0 || rep > 0 {
-						k = []int{1, 2, 3, 5, 8}[r.Intn(5)]
-					}
-					h, ops := genBig(r, n, k, shape, kindMode%3, n <= 140)
+					h, ops := genBig(r, n, []int{1, 2, 3, 5, 8}[r.Intn(5)], shape, kindMode%3, n <= 140)
 					kindMode++
 					g.Emit(caseLine(h, ops))
 				}
@@ -783,13 +792,18 @@ func gen(g *hx.Gen) {
 		}
 	}
 	// a few histories well above the last boundary
-	for i, cnt := 0, g.Pick(3, 24); i < cnt; i++ {
+	for i, cnt := 0, g.Pick(4, 24); i < cnt; i++ {
 		n := r.Range(1500, 2100)
 		if g.Thorough() && i%4 == 3 {
 			n = r.Range(2100, 5000)
 		}
-		h, ops := genBig(r, n, []int{1, 1, 2, 4}[r.Intn(4)], []int{shChainAsc, shChainDesc, shBinomial, shRootPairs, shMixed}[i%5], kindMode%3, false)
+		shape := []int{shChainAsc, shChainDesc, shBinomial, shRootPairs, shMixed}[i%5]
+		mode := kindMode % 3
 		kindMode++
+		if shape == shChainAsc || shape == shChainDesc {
+			mode = (i/5 + i) % 2
+		}
+		h, ops := genBig(r, n, []int{1, 1, 2, 4}[r.Intn(4)], shape, mode, false)
 		g.Emit(caseLine(h, ops))
 	}
 	// sizes between the boundaries, many sets, roots that are not least elements
